@@ -161,7 +161,7 @@ pub fn configs(tier: Tier) -> Vec<Config> {
     }
     // one axis at a time: sizes around the predictor's fixed-length weight representation (8 slots) in both
     // tiers, the u8 extremes in thorough; and both windows large together
-    for big in tier.pick(vec![7u8, 8, 9], vec![7u8, 8, 9, 16, 128, 255]) {
+    for big in tier.pick(vec![7u8, 8, 9, 127, 128, 255], vec![7u8, 8, 9, 16, 127, 128, 129, 255]) {
         for axis in 0..4 {
             let mut v = [2u8, 2, 2, 2];
             v[axis] = big;
